@@ -64,12 +64,24 @@ def slOp (cxx : Bool) (s : Sline) (tok : String) : Option (Sline × String) :=
         pure (r, slShow "0" r)
       | _ => none
   | 'b' => do
+      -- the count as the `unsigned int` it is (round 3b: the C-width functions; `count_parameters_width`
+      -- proves them equal to the unbounded `backspace` / `delete` in every reachable state)
       let n ← arg.toNat?
-      let r := s.backspace n
+      let r := s.backspaceC (BitVec.ofNat 32 n)
       pure (r.1, slShow (toString r.2) r.1)
   | 'd' => do
       let n ← arg.toNat?
-      let r := s.delete n
+      let r := s.deleteC (BitVec.ofNat 32 n)
+      pure (r.1, slShow (toString r.2) r.1)
+  | 'B' => do
+      -- B<int> / D<int>: the count as an `int` (igris::sline::backspace(int) / del(int); in the C family the
+      -- harness writes the same conversion `(unsigned int)i`)
+      let i ← arg.toInt?
+      let r := s.backspaceI i
+      pure (r.1, slShow (toString r.2) r.1)
+  | 'D' => do
+      let i ← arg.toInt?
+      let r := s.deleteI i
       pure (r.1, slShow (toString r.2) r.1)
   | 'l' => let r := s.left; some (r.1, slShow (toString r.2) r.1)
   | 'r' => let r := s.right; some (r.1, slShow (toString r.2) r.1)
@@ -228,12 +240,13 @@ def vwRun (W : Nat) : Vterm → WScreen → List Byte → List String
     let w' := WScreen.feed W w r.2.1
     wShow w' :: vwRun W r.1 w' cs
 
-/-- what the model embeds about the C types and constants (op `consts2`): sizeof of
-sline.cap / len / cursor, readline.state / last / lastsize / history_size / headhist / curhist,
-vterm.state / echo, the int16_t parameter; VTERM_INIT_STEP; READLINE_STATE_*; `char` is signed;
-the same three C++ indices; bytes vt100_left needs for INT_MAX (buffer: 16) -/
+/-- what the model embeds about the PUBLIC interface (op `consts2`): sizeof of the `int16_t` key parameter
+(`keyI`), of the `unsigned int` count parameter of `sline_backspace` / `sline_delete` (`backspaceC` / `deleteC`:
+`BitVec 32`), of the `int` length of `sline_newdata` (`newdataC`); VTERM_INIT_STEP; `char` is signed (`sextChar`);
+bytes vt100_left needs for INT_MAX (buffer: 16).  Round 3b: the widths of struct fields and the numbers behind
+READLINE_STATE_* are not fixed by the property; the harness reports them as tags. -/
 def consts2Line : String :=
-  "4 4 4 4 1 4 4 4 4 4 1 2 -1 0 1 2 3 1 4 4 " ++ toString (vt100Left 2147483647).length
+  "2 4 4 4 -1 1 " ++ toString (vt100Left 2147483647).length
 
 /-- the session the harness runs BEFORE main() (static object with init_priority(101)) -/
 def premainKeys : List Byte := [0x61, 0x62, CR, ESC, 0x5b, 0x41, 0x63, ESC, 0x5b, 0x44, 0x64, LF, 0x03, ESC, 0x5b, 0x41, ESC, 0x5b, 0x41, CR]
